@@ -9,6 +9,7 @@ Readers under test (all on files / text written by the library itself):
   h5all     Table.from_hdf5(h)  (ties the model's reading of the stored arrays to the library)
 """
 import atexit
+import datetime
 import itertools
 import json
 import os
@@ -52,6 +53,7 @@ UNKNOWN = 'no-such-id'
 _TMP = tempfile.mkdtemp(prefix='biomv-c14-')
 atexit.register(lambda: shutil.rmtree(_TMP, ignore_errors=True))
 _ART = {}
+_DATE = datetime.datetime(2026, 10, 1, 12, 0, 0)      # fixed, so that a rebuilt artefact is the same text
 
 
 # ---------------------------------------------------------------- artefacts of one spec
@@ -60,21 +62,22 @@ def art(c):
     key = jhash([c['spec'], c.get('gen', 'g')])
     if key in _ART:
         return _ART[key]
-    if len(_ART) > 64:
-        for k in list(_ART)[:32]:
+    if len(_ART) > 6000:        # far above what one run generates; entries are small
+        for k in list(_ART)[:3000]:
             a = _ART.pop(k)
             try:
                 os.remove(a['path'])
             except OSError:
                 pass
     t = T.build(c['spec'])
+    layout = T.layout_info(t)            # before the writers touch the representation
     gen = c.get('gen', 'g')
     path = os.path.join(_TMP, key[:24] + '.biom')
     with h5py.File(path, 'w') as f:
-        t.to_hdf5(f, gen)
-    js = t.to_json(gen)
+        t.to_hdf5(f, gen, creation_date=_DATE)
+    js = t.to_json(gen, creation_date=_DATE)
     doc = json.loads(js)
-    a = {'path': path, 'layout': T.layout_info(t),
+    a = {'path': path, 'layout': layout,
          'text': {'lib': js, 'dumps': json.dumps(doc), 'indent': json.dumps(doc, indent=2),
                   'compact': json.dumps(doc, separators=(',', ':'))}}
     with h5py.File(path, 'r') as f:
@@ -88,6 +91,14 @@ def art(c):
                        'indices': [int(x) for x in g['matrix/indices'][:]],
                        'data': [float(x) for x in g['matrix/data'][:]]}
         a['raw'] = raw
+        a['stored'] = []
+        for ax in ('observation', 'sample'):
+            r = raw[ax]
+            if any(v == 0 for v in r['data']):
+                a['stored'].append('file:%s-view-holds-stored-zero' % ax)
+            segs = [r['indices'][r['indptr'][i]:r['indptr'][i + 1]] for i in range(len(r['indptr']) - 1)]
+            if any(sg != sorted(sg) for sg in segs):
+                a['stored'].append('file:%s-view-unsorted-indices' % ax)
     a['json_all'] = T.snapshot(parse_table(js))
     _ART[key] = a
     return a
@@ -320,7 +331,7 @@ def cases_for(rng, spec, gen_by, tier, readers=None):
 
 
 def gen(rng, tier):
-    n = 14 if tier == 'quick' else 140
+    n = 60 if tier == 'quick' else 600
     for i in range(n):
         big = rng.random() < 0.35
         spec = T.rand_spec(rng, max_r=5 if big else 4, max_c=5 if big else 4)
@@ -386,6 +397,7 @@ def classify(c):
         tags.append('stream:' + c['stream'])
     try:
         tags.append('layout:' + art(c)['layout'])
+        tags.extend(art(c)['stored'])
     except Exception:
         pass
     if c['kind'] == 'h5all':
